@@ -21,6 +21,10 @@ OPER = {
     "wm": [{"t": "m", "w": 16, "aw": 16, "b": 3, "x": 6, "sc": 1, "d": 2, "hd": 1}],
     "dm": [{"t": "m", "w": 32, "aw": 32, "b": 3, "x": -1, "sc": 1, "d": 0, "hd": 0}],
     "lab": [{"t": "l", "nm": "known", "add": 0}],
+    "m16bad": [{"t": "m", "w": 0, "aw": 16, "b": 1, "x": -1, "sc": 1, "d": 0, "hd": 0}, {"t": "m", "w": 0, "aw": 16, "b": 6, "x": 7, "sc": 1, "d": 0, "hd": 0},
+               {"t": "m", "w": 0, "aw": 16, "b": 0, "x": -1, "sc": 1, "d": 2, "hd": 1}, {"t": "m", "w": 0, "aw": 16, "b": 4, "x": -1, "sc": 1, "d": 0, "hd": 0},
+               {"t": "m", "w": 0, "aw": 16, "b": 2, "x": -1, "sc": 1, "d": 0, "hd": 0}],
+    "fwdequ": [{"t": "l", "nm": "FWDQ", "add": 0}, {"t": "l", "nm": "FWDR", "add": 0}, {"t": "l", "nm": "FWDL", "add": 0}],
     "undef": [{"t": "l", "nm": "nowhere", "add": 0}],
     "far_ii": [{"t": "txt", "s": "8:27"}], "far_kw": [{"t": "txt", "s": "DWORD 2*8:0x0000001b"}], "far_es": [{"t": "txt", "s": '"":5'}],
     "far_ec": [{"t": "txt", "s": "'':5"}], "far_bs": [{"t": "txt", "s": '" ":known'}], "far_il": [{"t": "txt", "s": "8:known"}],
@@ -39,7 +43,7 @@ def shapes(ctx, part):
 
 
 def statement(mn, shape, variant=0):
-    ops = [json.loads(json.dumps(OPER[k][variant % len(OPER[k])])) for k in shape]
+    ops = [json.loads(json.dumps(OPER[k][(variant + 3 * j) % len(OPER[k])])) for j, k in enumerate(shape)]
     if mn in BRANCH and len(ops) == 1 and ops[0]["t"] in ("l", "i"):
         o = ops[0]
         tgt = {"t": "l", "nm": o["nm"], "add": 0} if o["t"] == "l" else {"t": "n", "v": o["v"], "sty": o.get("sty", "d")}
@@ -49,8 +53,13 @@ def statement(mn, shape, variant=0):
 
 def program(st, bits=16):
     pre = [{"k": "org", "v": 0x7c00}] + ([{"k": "bits", "v": 32}] if bits == 32 else [])
+    tail = []
+    if "FWD" in json.dumps(st):      # EQU names used BEFORE their definition, whose bodies are not constants
+        tail = [{"k": "equ", "nm": "FWDQ", "e": {"o": "+", "a": {"o": "id", "nm": "nosuchsymbol"}, "b": {"o": "n", "v": 2}}},
+                {"k": "equ", "nm": "FWDR", "e": {"o": "id", "nm": "BX"}},
+                {"k": "equ", "nm": "FWDL", "e": {"o": "-", "a": {"o": "id", "nm": "after"}, "b": {"o": "id", "nm": "known"}}}]
     return pre + [{"k": "label", "nm": "known"}, {"k": "ins", "mn": "NOP", "ops": []}, st,
-                  {"k": "label", "nm": "after"}, {"k": "data", "mn": "DW", "items": [{"t": "e", "e": {"o": "id", "nm": "after"}}]}]
+                  {"k": "label", "nm": "after"}, {"k": "data", "mn": "DW", "items": [{"t": "e", "e": {"o": "id", "nm": "after"}}]}] + tail
 
 
 def mnemonics():
